@@ -1,5 +1,9 @@
+// model state lives in statics: tests that run scenarios must not overlap
+static LOCK: std::sync::Mutex<()> = std::sync::Mutex::new(());
+
 #[test]
 fn smoke() {
+    let _g = LOCK.lock().unwrap_or_else(|e| e.into_inner());
     assert_eq!(hx::store::harness::util::smoke(), 1);
 }
 
@@ -79,6 +83,7 @@ fn format_model_matches_std() {
 
 #[test]
 fn all_scenarios_run_natively_on_zero_script() {
+    let _g = LOCK.lock().unwrap_or_else(|e| e.into_inner());
     // every scenario must at least execute natively (all choices zero) without a check failing
     for (name, f) in hx::registry() {
         if name.starts_with("dbg_") {
@@ -91,4 +96,68 @@ fn all_scenarios_run_natively_on_zero_script() {
         }
         assert!(hx::env::nd::native::fails().is_empty(), "{} fails on the zero script: {:?}", name, hx::env::nd::native::fails());
     }
+}
+
+#[test]
+fn scenarios_hold_natively_on_biased_random_scripts() {
+    let _g = LOCK.lock().unwrap_or_else(|e| e.into_inner());
+    // Not a deciding step (the solver is): a cheap native sweep that catches oracle mistakes in the
+    // scenario functions before solver time is spent, and validates the model on many concrete runs.
+    let mut x: u64 = 0x2545F4914F6CDD1D;
+    let mut rnd = move || {
+        x ^= x << 13;
+        x ^= x >> 7;
+        x ^= x << 17;
+        x
+    };
+    let mut bad = 0;
+    let known: &[&str] = &["C07 the set of usable contexts is the same before and after a reopen, however the frames got there"];
+    for (name, f) in hx::registry() {
+        if name.starts_with("dbg_") {
+            continue;
+        }
+        let mut ran = 0;
+        for _ in 0..3000 {
+            let mut script = Vec::new();
+            for _ in 0..64 {
+                let r = rnd();
+                let v: u128 = match r % 8 {
+                    0 => 0,
+                    1 => 1,
+                    2 => 2,
+                    3 => 0x61,
+                    4 => 0x62,
+                    5 => (r >> 8) as u128 % 5,
+                    6 => 0x78,
+                    _ => (r >> 8) as u128 % 300,
+                };
+                script.push(v.to_le_bytes().to_vec());
+            }
+            hx::env::nd::native::load(script.clone());
+            let r = std::panic::catch_unwind(f);
+            if hx::env::nd::native::assume_failed() {
+                continue;
+            }
+            ran += 1;
+            if !hx::env::nd::native::fails().is_empty() {
+                let js: Vec<Vec<u8>> = script.clone();
+                std::fs::write(format!("/verif/.target/logs/native-fail-{}.json", name), serde_json::to_string(&js).unwrap()).unwrap();
+            }
+            let fails: Vec<_> = hx::env::nd::native::fails().into_iter().filter(|m| !known.contains(m)).collect();
+            if hx::env::nd::native::tags().iter().any(|t| t.starts_with("KF-")) {
+                continue; // a shape listed in known_findings.json
+            }
+            if !fails.is_empty() {
+                eprintln!("NATIVE-FAIL {} {:?} tags={:?}", name, fails, hx::env::nd::native::tags());
+                bad += 1;
+                break;
+            }
+            if let Err(e) = &r {
+                let msg = e.downcast_ref::<String>().cloned().or_else(|| e.downcast_ref::<&str>().map(|s| s.to_string())).unwrap_or_default();
+                assert!(hx::env::nd::native::fails().len() > 0, "{} panicked natively: {}", name, msg);
+            }
+        }
+        eprintln!("{:40} {} valid native runs", name, ran);
+    }
+    assert_eq!(bad, 0, "scenarios failing natively (see NATIVE-FAIL lines)");
 }
